@@ -698,7 +698,8 @@ def ret_table(prog, fn, alias=None, slice_param=None, only_ok=False, quantified=
                         # rows `x is Err => Err(e)` and `x is Ok => Ok(f(v))` of the `match` / `?` form
                         from .terms import strip as _strip2, short as _short2, apply_closure as _apply2
                         ds_ = _strip2(d)
-                        if len(defs) == 1 and ds_[0] == "call" and _short2(ds_[1]) == "Result::<T, E>::map" and len(ds_[2]) == 2 and sy.known_result(ds_[2][0]) is None:
+                        if len(defs) == 1 and ds_[0] == "call" and _short2(ds_[1]) == "Result::<T, E>::map" and len(ds_[2]) == 2 and sy.known_result(ds_[2][0]) is None \
+                                and not sy.name(ds_[2][0]).startswith(("Err{", "Ok{")):
                             cl_ = _strip2(ds_[2][1])
                             pay_ = ("field", ("downcast", ds_[2][0], "Ok"), 0)
                             ap_ = _apply2(prog, cl_, (pay_,)) if cl_[0] == "aggr" else None
